@@ -1,6 +1,8 @@
 """Shared machinery of C01 and C08 (spec family WireFormat, harness programs wire / wire_mini / wire_micro / wire_py.py)."""
-import collections, json, os, re, subprocess, time
+import collections, json, os, re, subprocess, sys, time
 import vlib, pathcover
+
+sys.setrecursionlimit(max(sys.getrecursionlimit(), 20000))     # vectors with 200 levels of sub-Messages are JSON values about 1000 levels deep
 
 FAM = "WireFormat"
 SPECDIR = os.path.join(vlib.SPEC, FAM)
@@ -155,10 +157,10 @@ def validate_trace(path, tag, deviations=(), timeout=1500, heap="3g"):
     r = vlib.tlc("WireTrace", name, FAM, workers=1, timeout=timeout, heap=heap, env={"TRACE": path}, keep_out=True)
     try: os.remove(os.path.join(SPECDIR, name))
     except OSError: pass
-    m = re.search(r'<<\s*"maxline",\s*(\d+),\s*"of",\s*(\d+),\s*"statusdiffers",\s*(\d+),\s*"pyok",\s*(\d+),\s*"pynative",\s*(\d+),\s*"F38",\s*(\d+),\s*"F39",\s*(\d+)\s*>>', r.out)
+    m = re.search(r'<<\s*"maxline",\s*(\d+),\s*"of",\s*(\d+),\s*"statusdiffers",\s*(\d+),\s*"pyok",\s*(\d+),\s*"pynative",\s*(\d+),\s*"F38",\s*(\d+),\s*"F39",\s*(\d+),\s*"F45mini",\s*(\d+),\s*"F45micro",\s*(\d+)\s*>>', r.out)
     if r.error or r.violated or not m: raise vlib.MachineryError("WireTrace on %s: %s" % (path, r.error or r.violated or r.out[-2500:]))
-    maxline, n, sd, pyok, pyn, f38, f39 = (int(x) for x in m.groups())
-    return {"lines": n, "accepted": maxline > n, "first_rejected": None if maxline > n else maxline, "status_differs": sd, "pyok": pyok, "pynative": pyn, "F38": f38, "F39": f39, "wall": r.wall,
+    maxline, n, sd, pyok, pyn, f38, f39, f45a, f45b = (int(x) for x in m.groups())
+    return {"lines": n, "accepted": maxline > n, "first_rejected": None if maxline > n else maxline, "status_differs": sd, "pyok": pyok, "pynative": pyn, "F38": f38, "F39": f39, "F45mini": f45a, "F45micro": f45b, "wall": r.wall,
             "detail": r.printed[-1] if r.printed else None}
 
 
@@ -169,12 +171,12 @@ def validate_trace_slot(sem, path, tag, deviations=(), timeout=1500, heap="3g", 
     if nlines <= chunk * 3 // 2:
         with sem: return validate_trace(path, tag, deviations=deviations, timeout=timeout, heap=heap)
     pieces = split_trace(path, (nlines + chunk - 1) // chunk)
-    tot = {"lines": nlines, "accepted": True, "first_rejected": None, "status_differs": 0, "pyok": 0, "pynative": 0, "F38": 0, "F39": 0, "wall": 0.0, "detail": None}
+    tot = {"lines": nlines, "accepted": True, "first_rejected": None, "status_differs": 0, "pyok": 0, "pynative": 0, "F38": 0, "F39": 0, "F45mini": 0, "F45micro": 0, "wall": 0.0, "detail": None}
     offset = 0
     try:
         for k, (pf, n) in enumerate(pieces):
             with sem: r = validate_trace(pf, "%s_p%d" % (tag, k), deviations=deviations, timeout=timeout, heap=heap)
-            for key in ("status_differs", "pyok", "pynative", "F38", "F39", "wall"): tot[key] += r[key]
+            for key in ("status_differs", "pyok", "pynative", "F38", "F39", "F45mini", "F45micro", "wall"): tot[key] += r[key]
             if not r["accepted"]:
                 tot["accepted"] = False; tot["first_rejected"] = offset + r["first_rejected"]; tot["detail"] = r["detail"]
                 break
